@@ -401,7 +401,24 @@ func discharge(g *Gen, o *Obligation, workDir string, timeout int, st *solverSta
 // runLemmas checks the standalone spec-level lemmas of a property: /verif/spec/lemmas/<prop>_*.smt2, each a
 // closed SMT problem whose expected answer is unsat (statements about spec functions / polynomial identities, not code).
 func runLemmas(verif, prop string, timeout int, st *solverStats) []*Obligation {
-	files, _ := filepath.Glob(filepath.Join(verif, "spec", "lemmas", prop+"_*.smt2"))
+	all, _ := filepath.Glob(filepath.Join(verif, "spec", "lemmas", "*.smt2"))
+	var files []string
+	for _, f := range all {
+		// a lemma belongs to the property of its file name prefix and to every property on a "; props:" line
+		mine := strings.HasPrefix(filepath.Base(f), prop+"_")
+		if b, err := os.ReadFile(f); err == nil && !mine {
+			for _, line := range strings.Split(string(b), "\n") {
+				if strings.HasPrefix(line, "; props:") {
+					for _, w := range strings.Fields(strings.TrimPrefix(line, "; props:")) {
+						mine = mine || w == prop
+					}
+				}
+			}
+		}
+		if mine {
+			files = append(files, f)
+		}
+	}
 	var out []*Obligation
 	for _, f := range files {
 		name := strings.TrimSuffix(filepath.Base(f), ".smt2")
@@ -411,8 +428,27 @@ func runLemmas(verif, prop string, timeout int, st *solverStats) []*Obligation {
 				o.Desc = strings.TrimPrefix(string(b)[:i], "; ")
 			}
 		}
+		// "; prelude: a b" lines make the lemma a statement over the same spec vocabulary the contracts use: the named
+		// prelude files (with their dependencies) are prepended and the problem is solved from a temporary file
+		run := f
+		if b, err := os.ReadFile(f); err == nil {
+			var names []string
+			for _, line := range strings.Split(string(b), "\n") {
+				if strings.HasPrefix(line, "; prelude:") {
+					names = append(names, strings.Fields(strings.TrimPrefix(line, "; prelude:"))...)
+				}
+			}
+			if len(names) > 0 {
+				if tf, err := os.CreateTemp("", "govc-lemma-*.smt2"); err == nil {
+					tf.WriteString(LoadPrelude(filepath.Join(verif, "spec")).textFor(names) + "\n" + string(b))
+					tf.Close()
+					run = tf.Name()
+					defer os.Remove(run)
+				}
+			}
+		}
 		for _, sp := range []solverSpec{solvers[0], solvers[2], solvers[1]} {
-			r := runSolver(context.Background(), sp, f, timeout)
+			r := runSolver(context.Background(), sp, run, timeout)
 			st.mu.Lock()
 			st.secs[r.solver] += r.secs
 			st.mu.Unlock()
